@@ -53,7 +53,7 @@ func C16(r *drv.Run) {
 	if !quick(r) {
 		nrand = 400000
 	}
-	r.Rule = "sixteen goroutines compiling literals of 300 hex escapes at the same time, each its own letter, 25 times over, every call compared with the same call made alone; caseless literals: all 127 x 127 pairs of literal byte and text byte (a caseless literal matches the other case of a letter and nothing else); long literals of one byte repeated 10..257 times in each of its spellings, alone and alternating with a letter (eleven lines, forty tabs, 257 quotes); exhaustive: the NUL byte through its hex escape (alone, embedded, doubled, next to digits and to seven other bytes in every spelling) and every byte 0x01..0x7f in every spelling it has (raw, backslash+char, named escape, \\xHH, \\xhh) in both quote styles, alone, embedded between two other bytes, and as every ordered pair of 22 special bytes (CR, LF, tab, blank, both quotes, backslash, x, hex digits, controls, punctuation) in every combination of spellings; malformed \\x followed by 0, 1 or 2 hex digits and EVERY two-character continuation over 0x01..0x7f (control bytes included) that is not a hex pair (must keep all following characters); every backslash+char spelling followed by raw hex digits (stays that character and the digits); literals whose 32-bit hash (CRC-32 IEEE and Castagnoli, FNV-1, FNV-1a, Adler-32, times-31, djb2, sdbm) equals that of a word in front of them in the source or of another literal of the same command; every keyword of the language as a literal of its own (lower, UPPER, Capitalised; raw, first letter as hex escape, backslash before the second letter; alone, behind another literal, in a group); every keyword of the language (both letter cases) and phrases such as `caseless #`, `0 to 9`, `WS` as a string item of an `in` list behind a class, a range, a caseless item and another string; pairs of literals written back to back without a blank, in the same and in the other quote style; every letter in every spelling inside a group directly before and after a caseless literal (the other case must not match); seeded random ASCII strings (length 1..8) with a random spelling per byte; a third of all cases compiled right after near-duplicates of themselves (blank runs doubled or halved, letters in the other case) in the same process. The harness composes the denoted bytes b and the spelling, so it knows both. The command line tool: every pair literal that holds a backslash pair or a control byte before an escape letter, and a seed-chosen sample of the others, handed over as -com argument (two thirds) and as -src file (one third), searching a file that holds the denoted bytes and one near miss per position: the JSON output lists exactly the occurrences of the denoted bytes. Oracle: `find all <literal>` on b reports exactly [0,len b); on every one-byte substitution of b (neighbour values, case flip, 3 random bytes per position) it reports nothing of that span. Non-trivial = every distinct literal spelling verified on b and on its near misses."
+	r.Rule = "literals that denote 65 535 .. 131 073 bytes (both sides of 2^16 and 2^17, content without a period, raw and with escapes): each matches its own text whole and none of eight texts that differ from it in one byte; sixteen goroutines compiling literals of 300 hex escapes at the same time, each its own letter, 25 times over, every call compared with the same call made alone; caseless literals: all 127 x 127 pairs of literal byte and text byte (a caseless literal matches the other case of a letter and nothing else); long literals of one byte repeated 10..257 times in each of its spellings, alone and alternating with a letter (eleven lines, forty tabs, 257 quotes); exhaustive: the NUL byte through its hex escape (alone, embedded, doubled, next to digits and to seven other bytes in every spelling) and every byte 0x01..0x7f in every spelling it has (raw, backslash+char, named escape, \\xHH, \\xhh) in both quote styles, alone, embedded between two other bytes, and as every ordered pair of 22 special bytes (CR, LF, tab, blank, both quotes, backslash, x, hex digits, controls, punctuation) in every combination of spellings; malformed \\x followed by 0, 1 or 2 hex digits and EVERY two-character continuation over 0x01..0x7f (control bytes included) that is not a hex pair (must keep all following characters); every backslash+char spelling followed by raw hex digits (stays that character and the digits); literals whose 32-bit hash (CRC-32 IEEE and Castagnoli, FNV-1, FNV-1a, Adler-32, times-31, djb2, sdbm) equals that of a word in front of them in the source or of another literal of the same command; every keyword of the language as a literal of its own (lower, UPPER, Capitalised; raw, first letter as hex escape, backslash before the second letter; alone, behind another literal, in a group); every keyword of the language (both letter cases) and phrases such as `caseless #`, `0 to 9`, `WS` as a string item of an `in` list behind a class, a range, a caseless item and another string; pairs of literals written back to back without a blank, in the same and in the other quote style; every letter in every spelling inside a group directly before and after a caseless literal (the other case must not match); seeded random ASCII strings (length 1..8) with a random spelling per byte; a third of all cases compiled right after near-duplicates of themselves (blank runs doubled or halved, letters in the other case) in the same process. The harness composes the denoted bytes b and the spelling, so it knows both. The command line tool: every pair literal that holds a backslash pair or a control byte before an escape letter, and a seed-chosen sample of the others, handed over as -com argument (two thirds) and as -src file (one third), searching a file that holds the denoted bytes and one near miss per position: the JSON output lists exactly the occurrences of the denoted bytes. Oracle: `find all <literal>` on b reports exactly [0,len b); on every one-byte substitution of b (neighbour values, case flip, 3 random bytes per position) it reports nothing of that span. Non-trivial = every distinct literal spelling verified on b and on its near misses."
 	r.Assumptions = []string{"ASCII bytes 0x00..0x7f (NUL only through its hex escape: a raw NUL cannot stand in a source); the lexer writes \\x80..\\xff as two-byte runes"}
 	var cases []c16Case
 	for _, q := range []byte{'\'', '"'} {
@@ -352,6 +352,7 @@ func C16(r *drv.Run) {
 	})
 	c16CaselessPairs(r)
 	c16Conc(r)
+	c16Huge(r)
 	c16CLI(r, cases)
 	if r.NViolations() == 0 {
 		for _, k := range []string{"ok_single:raw", "ok_single:named", "ok_single:hex-upper", "ok_single:hex-lower", "ok_single:backslash-char", "ok_malformed-hex", "ok_malformed-hex-pair", "ok_backslash-char-then-hex-digits", "ok_list-item-after-other-kinds", "ok_random-mixed", "ok_pair:raw+raw", "ok_pair:named+raw"} {
